@@ -10,12 +10,15 @@ def parseEv (s : String) : Option Ev :=
   | ["sem.rel", _] => some .semRel
   | ["prev.none", _] => some .prevNone
   | ["prev.done", n] => n.toNat?.map .prevDone
+  | ["stream.new.offer", n] => n.toNat?.map .newOffer
+  | ["stream.new.retract", n] => n.toNat?.map .newRetract
   | ["stream.new.begin", n] => n.toNat?.map .newBegin
   | ["stream.new.end", n] => n.toNat?.map .newEnd
   | ["rd.deliver", n] => n.toNat?.map .deliver
   | ["rd.drop", n] => n.toNat?.map .drop
   | ["rd.queue", n] => n.toNat?.map .queue
   | ["rd.wait", n] => n.toNat?.map .wait
+  | ["rd.orphan", n] => n.toNat?.map .orphan
   | ["term", _] => some .term
   | ["tport.close", _] => some .tportClose
   | ["sfin.recv", n] => n.toNat?.map .sfinRecv
